@@ -129,26 +129,35 @@ func genC13() {
 	}
 
 	const acc = "pkg/build/accounts.go"
-	u2e := findFunc(acc, "", "userToUserEntry")
-	str("default_shell", c13AssignRHS(u2e, acc+":userToUserEntry", "user.Shell"), "default shell")
-	if rhs := c13AssignRHS(u2e, acc+":userToUserEntry", "user.HomeDir"); rhs != nil {
+	// The passwd.UserEntry / passwd.GroupEntry literals are found BY TYPE wherever they stand in accounts.go
+	// (in the helpers userToUserEntry / appendGroup today, or inlined into mutateAccounts), and the defaults
+	// by the shape of their statements in the function that holds the literal — never by helper or local names.
+	ueLit, u2e := c13LitOfType(acc, "passwd.UserEntry")
+	if ueLit == nil {
+		fail("%s: no passwd.UserEntry composite literal", acc)
+	}
+	str("default_shell", c13FieldDefault(u2e, acc+":userToUserEntry", "Shell"), "default shell")
+	if rhs := c13FieldDefault(u2e, acc+":userToUserEntry", "HomeDir"); rhs != nil {
 		be, ok := rhs.(*ast.BinaryExpr)
-		if !ok || be.Op != token.ADD || exprText(be.Y) != "user.UserName" {
+		if !ok || be.Op != token.ADD || !c13IsField(be.Y, "UserName") {
 			fail("%s: user.HomeDir default is not <literal> + user.UserName", acc)
 		} else {
 			str("home_prefix", be.X, "default home prefix")
 		}
 	}
-	str("entry_password", c13KeyedField(u2e, acc+":userToUserEntry", "Password"), "password field of created users")
-	str("entry_info", c13KeyedField(u2e, acc+":userToUserEntry", "Info"), "info field of created users")
+	str("entry_password", c13LitField(ueLit, acc+":userToUserEntry", "Password"), "password field of created users")
+	str("entry_info", c13LitField(ueLit, acc+":userToUserEntry", "Info"), "info field of created users")
 	// gid := user.UID ... if user.GID != nil { gid = *user.GID }
 	gidDefault := c13FindDefine(u2e, "gid")
-	g.def("gid_defaults_to_uid", "bool", fmt.Sprint(gidDefault != nil && exprText(gidDefault) == "user.UID"), "gid := user.UID in userToUserEntry")
-	if gidDefault == nil || exprText(gidDefault) != "user.UID" {
+	g.def("gid_defaults_to_uid", "bool", fmt.Sprint(gidDefault != nil && c13IsField(gidDefault, "UID")), "gid := user.UID in userToUserEntry")
+	if gidDefault == nil || !c13IsField(gidDefault, "UID") {
 		fail("%s: userToUserEntry no longer starts from gid := user.UID", acc)
 	}
-	ag := findFunc(acc, "", "appendGroup")
-	str("group_password", c13KeyedField(ag, acc+":appendGroup", "Password"), "password field of created groups")
+	geLit, _ := c13LitOfType(acc, "passwd.GroupEntry")
+	if geLit == nil {
+		fail("%s: no passwd.GroupEntry composite literal", acc)
+	}
+	str("group_password", c13LitField(geLit, acc+":appendGroup", "Password"), "password field of created groups")
 
 	ma := findFunc(acc, "", "mutateAccounts")
 	if s, ok := c13CompareLit(ma, acc+":mutateAccounts", "ue.HomeDir"); ok {
@@ -347,6 +356,88 @@ func genC13() {
 	str("apko_config_path", c13CallArg(wc, bi+":WriteEtcApkoConfig", "Create", 0), "file written by WriteEtcApkoConfig")
 	num("apko_config_perm", c13CallArg(wc, bi+":WriteEtcApkoConfig", "Chmod", 1), "mode of etc/apko.json")
 	g.write()
+}
+
+// c13LitOfType: the first composite literal of the given (printed) type in the file, with the function that holds it.
+func c13LitOfType(rel, typ string) (*ast.CompositeLit, *ast.FuncDecl) {
+	f := load(rel)
+	if f == nil {
+		return nil, nil
+	}
+	for _, d := range f.Decls {
+		fd, ok := d.(*ast.FuncDecl)
+		if !ok || fd.Body == nil {
+			continue
+		}
+		var found *ast.CompositeLit
+		ast.Inspect(fd, func(n ast.Node) bool {
+			cl, ok := n.(*ast.CompositeLit)
+			if ok && found == nil && cl.Type != nil && exprText(cl.Type) == typ {
+				found = cl
+			}
+			return true
+		})
+		if found != nil {
+			return found, fd
+		}
+	}
+	return nil, nil
+}
+
+// c13LitField: the value of the keyed field in the literal.
+func c13LitField(cl *ast.CompositeLit, where, key string) ast.Expr {
+	if cl == nil {
+		return nil
+	}
+	for _, el := range cl.Elts {
+		if kv, ok := el.(*ast.KeyValueExpr); ok {
+			if id, ok := kv.Key.(*ast.Ident); ok && id.Name == key {
+				return kv.Value
+			}
+		}
+	}
+	fail("%s: no composite literal field %s", where, key)
+	return nil
+}
+
+// c13IsField: e is <anything>.<field>
+func c13IsField(e ast.Expr, field string) bool {
+	se, ok := e.(*ast.SelectorExpr)
+	return ok && se.Sel.Name == field
+}
+
+// c13FieldDefault: in fd, the right side of the first plain assignment `<x>.<field> = <rhs>`
+// guarded by `if <x>.<field> == ""` (the shape of a default), whatever <x> is called.
+func c13FieldDefault(fd *ast.FuncDecl, where, field string) ast.Expr {
+	if fd == nil {
+		return nil
+	}
+	var found ast.Expr
+	ast.Inspect(fd, func(n ast.Node) bool {
+		is, ok := n.(*ast.IfStmt)
+		if !ok || found != nil {
+			return true
+		}
+		be, ok := is.Cond.(*ast.BinaryExpr)
+		if !ok || be.Op != token.EQL || !c13IsField(be.X, field) {
+			return true
+		}
+		if s, ok := strLit(be.Y); !ok || s != "" {
+			return true
+		}
+		for _, st := range is.Body.List {
+			as, ok := st.(*ast.AssignStmt)
+			if ok && as.Tok == token.ASSIGN && len(as.Lhs) == 1 && len(as.Rhs) == 1 && exprText(as.Lhs[0]) == exprText(be.X) {
+				found = as.Rhs[0]
+				return false
+			}
+		}
+		return true
+	})
+	if found == nil {
+		fail("%s: no default `if x.%s == \"\" { x.%s = ... }`", where, field, field)
+	}
+	return found
 }
 
 func c13JoinSemi(items []string) string {
